@@ -200,7 +200,10 @@ class Run:
             with open(p, "wb") as f:
                 f.write(u["bytes"])
             return p
-        return io.BytesIO(u["bytes"])
+        b = io.BytesIO(u["bytes"])
+        if via == "usedstream":        # a stream the caller has looked into already (its size, its format): the cursor is mid-way
+            b.read(len(u["bytes"]) // 2)
+        return b
 
     def _note_pic(self, slide, pic, a):
         u = None
